@@ -48,7 +48,7 @@ def gen_case(ctx, i):
                     maps[0, c_, y_ + 1, x_] = v_
             maps[0, c_, -1, : min(Ww, 40)] = 0.6  # a constant strip on the border
         thr = float(r.choice([0.0, 0.2]))
-    f64 = bool(r.random() < 0.15)
+    f64 = bool(r.random() < 0.15) and kind != "huge"  # (perturbing every cell of a 300 k-cell map would create ~30 k peaks; refinement copies the map once per peak)
     if f64:  # float64 maps whose neighbouring cells differ by less than float32 resolution (near-ties that only float64 arithmetic orders)
         maps = maps.astype(np.float64) + r.integers(0, 7, maps.shape) * 1e-10  # non-negative: same-sign patches stay same-sign
     return {"i": i, "kind": kind, "thr": thr, "patch": patch, "maps": maps, "solo": bool(i % 3 == 0), "f64": f64}
